@@ -48,6 +48,8 @@ type Machine struct {
 	uuidCtr   int
 	notes     map[string]Val
 	pendingAx []string
+	frames    []*frame
+	keepSymBounds bool // harness asked to keep symbolic slice bounds symbolic (sizes-only models)
 }
 
 var opaqueErrType = types.NewNamed(types.NewTypeName(token.NoPos, nil, "opaqueError", nil), types.Typ[types.Int], nil)
@@ -282,7 +284,10 @@ func (m *Machine) call(fn *ssa.Function, args []Val, free []Val) (ret Val) {
 	for i, p := range fn.Params {
 		fr.env[p] = args[i]
 	}
+	nfr := len(m.frames)
+	m.frames = append(m.frames, fr)
 	defer func() {
+		m.frames = m.frames[:nfr]
 		if r := recover(); r != nil {
 			gp, ok := r.(goPanic)
 			if !ok {
